@@ -89,6 +89,24 @@ def _solve_layouts(r, cop, y, v, sig, case, fam, th):
             r.violation(f'{sig}:not-elementwise', f'{fam} theta={th}: element (y={y[idx][i]}, v={v[idx][i]}) gives '
                         f'{out[i]!r} in the {lname} vector but {solo[idx][i]!r} alone', case=case)
             break
+    # the SAME y / v objects evaluated, refilled in place (permuted values) and evaluated again: inputs stay untouched and
+    # the answer is a function of the values, not of the identity of the arrays
+    ys, vs = y.copy(), v.copy()
+    r.tr(2)
+    try:
+        o1 = np.array(cop.percent_point(ys, vs), float)      # a copy: Gumbel theta=1 legitimately returns y itself
+        untouched = np.array_equal(ys, y) and np.array_equal(vs, v)
+        ys[:], vs[:] = y[perm], v[perm]
+        o2 = np.asarray(cop.percent_point(ys, vs), float)
+        r.ev(2 * n)
+        if not untouched:
+            r.violation(f'{sig}:argument-modified', f'{fam} theta={th}: percent_point wrote into its y / v arguments', case=case)
+        elif o1.shape != (n,) or o2.shape != (n,) or not (np.all(np.abs(o1 - solo) <= 1e-12) and
+                                                        np.all(np.abs(o2 - solo[perm]) <= 1e-12)):
+            r.violation(f'{sig}:not-elementwise:same-objects-refilled', f'{fam} theta={th}: the same y / v array objects evaluated, '
+                        f'refilled in place with permuted values and evaluated again do not give the element-wise roots', case=case)
+    except Exception as e:
+        r.violation(f'{sig}:vector-raises:{type(e).__name__}:refilled', f'{fam} theta={th}: refilled input raised {e}', case=case)
     # the same vectors handed over as pandas Series whose index labels are a permutation of 0..n-1 (positional meaning)
     import pandas as pd
     lab = np.argsort((np.arange(n) * 104729) % n, kind='stable')
